@@ -67,7 +67,7 @@ def cases(draw):
     ok, bad = c08.contents()
     src = draw(st.sampled_from(['gen', 'gen', 'pool', 'bad']))
     if src == 'gen':
-        c = draw(gen.configs(reservoirs=('4', '3'), addons=0.1, examples=0.2))
+        c = draw(gen.configs(reservoirs=('4', '3'), addons=0.1, examples=0.2, sdac=0.1))
         text, expect_ok, label = sim.render(c['params']), None, 'generated'
     elif src == 'pool':
         i = draw(st.integers(0, len(ok) - 1))
@@ -206,18 +206,30 @@ def evaluate(c, rec):
         stem = os.path.splitext(os.path.basename(target))[0]
         json_target = os.path.join(os.path.dirname(target), stem + '.json')
         before = _listing(root)
+        # the program changes into its package directory while it runs: nothing may be left there either (report-like files only:
+        # byte-code caches and logs of concurrent runs are not this property's subject)
+        pkg = os.path.join(SRC_DIR, 'geophires_x')
+        pkg_before = set(f for f in os.listdir(pkg) if f.lower().endswith(('.out', '.json', '.csv', '.html')))
         env = dict(os.environ, PYTHONPATH=SRC_DIR, MPLBACKEND='Agg', PYTHONDONTWRITEBYTECODE='1', TMPDIR=root)
         # relative input path too, sometimes
         inp_arg = os.path.relpath(inp, start) if c['cwd_depth'] % 2 == 0 else inp
         pr = subprocess.run([sys.executable, '-m', 'geophires_x', inp_arg] + args, cwd=start, env=env, capture_output=True, text=True, timeout=900)
         after = _listing(root)
         created = sorted(after - before)
+        pkg_new = sorted(set(f for f in os.listdir(pkg) if f.lower().endswith(('.out', '.json', '.csv', '.html'))) - pkg_before)
         case = {k: c.get(k) for k in ('kind', 'text', 'label', 'expect_ok', 'out_kind', 'out_name', 'cwd_depth', 'dup_pair', 'prelude')}
         sig = dict(out_kind=kind)
 
         def bad(clause, detail, **extra):
             rec.violation(clause, case, detail, **sig, **extra)
 
+        if pkg_new:
+            bad('cli_leaves_file_in_package_directory', {'files': pkg_new, 'args': args}, files='+'.join(pkg_new)[:60])
+            for f in pkg_new:
+                try:
+                    os.remove(os.path.join(pkg, f))
+                except OSError:
+                    pass
         # reference: direct pipeline in this process
         ref = sim.run_text(c['text'], want_report=True)
         labels = [f'out:{kind}', 'src:' + c['label'].rstrip('0123456789')]
